@@ -24,13 +24,42 @@ def short(node: ast.AST | None, n: int = 100) -> str:
     return s if len(s) <= n else s[: n - 3] + "..."
 
 
+class _Elide(ast.NodeTransformer):
+    def visit_Call(self, node):
+        self.generic_visit(node)
+        if len(norm(node)) > 48 and (node.args or node.keywords):
+            return ast.Call(func=node.func, args=[ast.Constant(value=...)], keywords=[])
+        return node
+
+    def visit_JoinedStr(self, node):
+        return ast.Constant(value="f-string")
+
+
+def brief(node: ast.AST | None) -> str:
+    """Statement text with the arguments of long calls elided - a stable construct key."""
+    if node is None:
+        return ""
+    s = " ".join(norm(node).split())
+    if len(s) <= 72:
+        return s
+    import copy
+
+    try:
+        n2 = _Elide().visit(copy.deepcopy(node))
+        ast.fix_missing_locations(n2)
+        s2 = " ".join(norm(n2).split())
+    except Exception:  # pragma: no cover
+        s2 = s
+    return s2 if len(s2) <= 110 else s2[:107] + "..."
+
+
 def head(node: ast.AST) -> str:
     """First line of a statement (compound statements are reduced to their header)."""
     if isinstance(node, (ast.If, ast.While)):
         kw = "if" if isinstance(node, ast.If) else "while"
-        return f"{kw} {short(node.test)}:"
+        return f"{kw} {brief(node.test)}:"
     if isinstance(node, (ast.For, ast.AsyncFor)):
-        return f"for {short(node.target)} in {short(node.iter)}:"
+        return f"for {short(node.target)} in {brief(node.iter)}:"
     if isinstance(node, (ast.With, ast.AsyncWith)):
         return "with " + ", ".join(short(i) for i in node.items) + ":"
     if isinstance(node, ast.Try):
@@ -41,7 +70,7 @@ def head(node: ast.AST) -> str:
         return f"def {node.name}(...)"
     if isinstance(node, ast.ClassDef):
         return f"class {node.name}"
-    return short(node)
+    return brief(node)
 
 
 def walk_local(node: ast.AST) -> Iterator[ast.AST]:
